@@ -20,13 +20,19 @@ THEOREMS = {"Proofs.Props.C02": ["MsPack.Cab.C02_block_fits_buffer", "MsPack.Cab
                                          "MsPack.Kwaj.Lzh.C02_lzh_no_oob", "MsPack.Kwaj.Lzh.C02_lzh_file_no_ub", "MsPack.Kwaj.Lzh.C02_lzh_calls_no_oob"],
             "Proofs.Props.C02Lzx": ["MsPack.Lzx.C02_lzx_no_oob", "MsPack.Lzx.C02_lzx_faults_benign", "MsPack.Lzx.C02_lzx_init_inv", "MsPack.Lzx.C02_lzx_inv_preserved",
                                     "MsPack.Lzx.C02_lzx_seq_no_oob", "MsPack.Lzx.C02_lzx_from_init_no_oob"],
+            "Proofs.Props.C02Qtm": ["MsPack.Qtm.C02_qtm_no_oob", "MsPack.Qtm.C02_qtm_fault_origin", "MsPack.Qtm.C02_qtm_init", "MsPack.Qtm.C02_qtm_preserved",
+                                    "MsPack.Qtm.C02_qtm_session_no_oob", "MsPack.Qtm.C02_qtm_cab_no_oob", "MsPack.Qtm.C02_qtm_no_divZero"],
+            "Proofs.Props.C02Chm": ["MsPack.Chm.C02_readHeaders_no_fault", "MsPack.Chm.C02_fastFind_no_fault", "MsPack.Chm.C02_fastFind_inv",
+                                    "MsPack.Chm.C02_extract_faults_from_lzx", "MsPack.Chm.C02_extract_sec0_no_fault", "MsPack.Chm.C02_extract_inv"],
             "Proofs.Props.C02Zip": ["MsPack.Zip.C02_zip_decompress_no_oob", "MsPack.Zip.C02_zip_decompress_faults", "MsPack.Zip.C02_zip_session_no_oob",
                                     "MsPack.Zip.C02_cab_mszip_no_oob", "MsPack.Zip.C02_kwaj_mszip_faults"],
             "Proofs.Props.Tables": ["MsPack.TableObligations.cab_block_fits", "MsPack.TableObligations.lzx_dims",
                                     "MsPack.TableObligations.qtm_dims", "MsPack.TableObligations.zip_dims"]}
 ASSUMPTIONS = ["theorems: on the models the out-of-bounds (and null-dereference, shift-width, division, uninitialised-table) outcomes are unreachable for every input - CAB container buffers, the LZSS decoder, the KWAJ header reader (13-byte name buffer), the KWAJ LZH decoder and the MSZIP decoder (window, input buffer, bit-length table; CAB and KWAJ entry points, any sequence of calls); "
                "a fault can only be one the source's own read() raised (none for the file-backed sources) or the model's fuel running out; the LZX decoder (all its window, input-buffer, length-array, position-table and E8-buffer accesses, any sequence of calls, CAB/CHM/DELTA) under two stated side conditions: the stream length announced to the decoder does not change once set (`LenStable`; lzxd_set_output_length called with a second, different value after a short last frame IS an out-of-bounds write on the model - not reachable through the public API, where cabd sets it once) and the stream position stays below 2^31 (beyond it `match_offset - window_posn` wraps as an int on the model; CAB caps offsets there, a CHM stream beyond 2 GiB is outside what this sandbox can replay); "
-               "Quantum and the CHM chunk parsers are covered by sanitizer runs and model agreement (theorems where listed in DESIGN 0.2)",
+               "the Quantum decoder (window, input buffer, the nine adaptive models incl. the division by the model's total frequency: the invariant keeps it non-zero), any sequence of calls; "
+               "the CHM layer: readHeaders and fastFind return no fault at all for any file and any cache state (their internal fuels are proved sufficient), extract has no fault of its own (reset-table reads, system-file pointers, the handle) - only one passed on from the LZX decoder; "
+               "the OAB container is covered by sanitizer runs and model agreement (theorems where listed in DESIGN 0.2)",
                "sanitizers observe heap/stack/global objects; writes past an array member but inside its struct are not C02 violations as worded and are not observed",
                "memory model: one C object = one bounded region"]
 RULE = ("*.malformed: 4-6 mutations (bit flips, byte sets, truncations, splices; biased to headers) of generated well-formed archives of all five formats, "
